@@ -1,5 +1,5 @@
 From Restic Require Import Base.Prelude Model.C22m.
-From Coq Require Import Permutation.
+From Coq Require Import Permutation ZifyBool.
 Import C22m.
 Open Scope Z_scope.
 
@@ -388,6 +388,113 @@ Proof.
     split; [cbn; congruence|]. intros [|j] Hj; cbn in *.
     + inversion Hj; subst. destruct y; [reflexivity | discriminate].
     + apply N, Hj.
+Qed.
+
+(* ---- monotonicity in the duration of keep-within ---- *)
+Module DurMono.
+Ltac Zify.zify_post_hook ::= Z.div_mod_to_equations.
+
+(* days before 1 March of (March-based) year y, relative to era 0 *)
+Definition Eday (y : Z) : Z :=
+  let era := y / 400 in let yoe := y - era * 400 in era * 146097 + yoe * 365 + yoe / 4 - yoe / 100.
+
+Lemma Eday_step y : Eday y + 365 <= Eday (y + 1).
+Proof. unfold Eday. lia. Qed.
+
+(* first day of the month with index k = 12*year + (month-1) *)
+Definition F (k : Z) : Z := days_from_civil (k / 12) (k mod 12 + 1) 1.
+
+Lemma F_march k : F k = Eday ((k - 2) / 12) + (153 * ((k - 2) mod 12) + 2) / 5 - 719468.
+Proof.
+  unfold F, days_from_civil, Eday.
+  destruct (Z.leb_spec (k mod 12 + 1) 2) as [H1|H1]; destruct (Z.gtb_spec (k mod 12 + 1) 2) as [H2|H2]; lia.
+Qed.
+
+Lemma F_step k : F k <= F (k + 1).
+Proof.
+  rewrite !F_march.
+  destruct (Z.eq_dec ((k - 2) mod 12) 11) as [E|E].
+  - assert (E1 : (k + 1 - 2) / 12 = (k - 2) / 12 + 1) by lia.
+    assert (E2 : (k + 1 - 2) mod 12 = 0) by lia.
+    rewrite E1, E2, E. pose proof (Eday_step ((k - 2) / 12)) as Hs.
+    change ((153 * 11 + 2) / 5) with 337. change ((153 * 0 + 2) / 5) with 0. lia.
+  - assert (E1 : (k + 1 - 2) / 12 = (k - 2) / 12) by lia.
+    assert (E2 : (k + 1 - 2) mod 12 = (k - 2) mod 12 + 1) by lia.
+    rewrite E1, E2.
+    assert (Hd : (153 * ((k - 2) mod 12) + 2) / 5 <= (153 * ((k - 2) mod 12 + 1) + 2) / 5)
+      by (apply Z.div_le_mono; lia).
+    clear E E1 E2. generalize dependent (Eday ((k - 2) / 12)). intros e.
+    generalize dependent ((153 * ((k - 2) mod 12) + 2) / 5). intros a.
+    generalize ((153 * ((k - 2) mod 12 + 1) + 2) / 5). intros b Hd. lia.
+Qed.
+
+Lemma F_mono k1 k2 : k1 <= k2 -> F k1 <= F k2.
+Proof.
+  intros H. revert k2 H. apply (Z.le_ind (fun k => F k1 <= F k)).
+  - intros x y ->. reflexivity.
+  - lia.
+  - intros m Hm IH. pose proof (F_step m) as Hs. replace (Z.succ m) with (m + 1) by lia. lia.
+Qed.
+
+Lemma threshold_inst latest d :
+  inst (threshold latest d) =
+  ((F (12 * (year_of latest - d_years d) + (month_of latest - 1 - d_months d))
+    + (day_of latest - d_days d - 1)) * 86400 + local_sod latest - t_off latest - 3600 * d_hours d)
+  * 1000000000 + t_nsec latest.
+Proof.
+  unfold threshold, add_date, inst, F. cbn [t_sec t_nsec t_off].
+  generalize (year_of latest) (month_of latest) (day_of latest) (local_sod latest). intros y m dd sod.
+  assert (E1 : (12 * (y - d_years d) + (m - 1 - d_months d)) / 12 = y + - d_years d + (m - 1 + - d_months d) / 12) by lia.
+  assert (E2 : (12 * (y - d_years d) + (m - 1 - d_months d)) mod 12 = (m - 1 + - d_months d) mod 12) by lia.
+  rewrite E1, E2. lia.
+Qed.
+
+Definition le_dur (d d' : dur) : Prop :=
+  d_hours d <= d_hours d' /\ d_days d <= d_days d' /\ d_months d <= d_months d' /\ d_years d <= d_years d'.
+Definition dur_nonneg (d : dur) : Prop :=
+  0 <= d_hours d /\ 0 <= d_days d /\ 0 <= d_months d /\ 0 <= d_years d.
+
+(* a longer duration moves the threshold back (or leaves it) *)
+Lemma threshold_mono latest d d' : le_dur d d' -> inst (threshold latest d') <= inst (threshold latest d).
+Proof.
+  intros [H1 [H2 [H3 H4]]]. rewrite !threshold_inst.
+  pose proof (F_mono (12 * (year_of latest - d_years d') + (month_of latest - 1 - d_months d'))
+                     (12 * (year_of latest - d_years d) + (month_of latest - 1 - d_months d))) as HF.
+  assert (HF' := HF ltac:(lia)). lia.
+Qed.
+
+Lemma in_window_mono latest d d' s :
+  le_dur d d' -> dur_nonneg d -> in_window latest d s = true -> in_window latest d' s = true.
+Proof.
+  intros Hle Hnn H. unfold in_window in *. apply andb_true_iff in H as [Hz Ha].
+  apply andb_true_iff. split.
+  - apply negb_true_iff in Hz. apply negb_true_iff. unfold dur_zero in *.
+    destruct Hle as [H1 [H2 [H3 H4]]]. destruct Hnn as [N1 [N2 [N3 N4]]].
+    destruct (Z.eqb_spec (d_years d) 0), (Z.eqb_spec (d_months d) 0), (Z.eqb_spec (d_days d) 0), (Z.eqb_spec (d_hours d) 0);
+      try discriminate;
+      destruct (Z.eqb_spec (d_years d') 0), (Z.eqb_spec (d_months d') 0), (Z.eqb_spec (d_days d') 0), (Z.eqb_spec (d_hours d') 0);
+      try reflexivity; lia.
+  - unfold after in *. apply Z.gtb_lt in Ha. apply Z.gtb_lt.
+    pose proof (threshold_mono latest d d' Hle). lia.
+Qed.
+End DurMono.
+
+Lemma implb_list_map {A} (f g : A -> bool) l :
+  (forall x, f x = true -> g x = true) -> implb_list (map f l) (map g l) = true.
+Proof.
+  intros H. induction l as [|x l IH]; [reflexivity|]. cbn. rewrite IH.
+  destruct (f x) eqn:E; [rewrite (H x E)|]; reflexivity.
+Qed.
+
+(* raising the keep-within duration never drops a kept snapshot *)
+Theorem spec_keep_mono_within latest p d' l :
+  DurMono.le_dur (p_within p) d' -> DurMono.dur_nonneg (p_within p) ->
+  implb_list (spec_keep latest p l)
+             (spec_keep latest (mkPol (p_counts p) d' (p_withins p) (p_tags p)) l) = true.
+Proof.
+  intros Hle Hnn. unfold spec_keep; cbn [p_tags p_within p_withins p_counts].
+  apply implb_orl; [apply implb_list_refl|]. apply implb_orl; [|apply implb_list_refl].
+  unfold rule_within. apply implb_list_map. intros s. apply DurMono.in_window_mono; assumption.
 Qed.
 
 (* ---- the tag rule and HasTags ---- *)
